@@ -177,10 +177,10 @@ Theorem c_encodebits_spec : forall b n v, wok b -> 0 <= n <= 32 -> 0 <= v < 2 ^ 
   wok (c_encodebits b n v) /\ wbits (c_encodebits b n v) = wbits b ++ bits_of (Z.to_nat n) v.
 Proof.
   intros b n v Hok Hn Hv. unfold c_encodebits.
-  pose proof (enc_loop_spec 5 b n n v Hok ltac:(lia) ltac:(lia) Hv) as L.
+  pose proof (enc_loop_spec 10 b n n v Hok ltac:(lia) ltac:(lia) Hv) as L.
   rewrite Z.sub_diag, Z.pow_0_r, Z.mod_1_r in L. rewrite (Z.div_small v (2 ^ n)) in L by lia.
   specialize (L eq_refl ltac:(lia)).
-  destruct (c_enc_loop 5 n v b) as [nb b1]. destruct L as (Hnb & Hle & Hok1 & Hov & Hbits & Hlb).
+  destruct (c_enc_loop 10 n v b) as [nb b1]. destruct L as (Hnb & Hle & Hok1 & Hov & Hbits & Hlb).
   destruct (Z.ltb_spec 0 nb) as [Hpos|Hz].
   - destruct Hok1 as [Hlb1 Hl1].
     set (lb := cb_lastbits b1) in *. set (l := cb_lastbyte b1) in *. set (c := n - nb) in *.
